@@ -28,8 +28,11 @@ def py_class(a, braces=True):
         unit = ([it] if j == 0 else []) + list(G.items_in_order(br['c']))
         if mval(br) >= 2 and any(u['r'] for u in unit):
             return 4
-    if any(mval(br) >= 2 and any(u['br'] for u in G.items_in_order(br['c'])) for _, _, br in sites):
-        return 5
+    for it, j, br in sites:
+        inner = [b for u in G.items_in_order(br['c']) for b in u['br']]
+        anchor0 = it is a[0] and mval(it) <= 1
+        if mval(br) >= 2 and inner and (mval(br) >= 3 or anchor0 or len(inner) >= 2 or any(b['m'] is not None for b in inner)):
+            return 5
     if any(mval(br) >= 2 and j > 0 for _, j, br in sites):
         return 6
     if not braces and a[-1]['br'] and a[-1]['br'][-1]['m'] is not None and not a[-1]['br'][-1]['a']:
@@ -92,6 +95,37 @@ def find_map(short, long, identity_only):
     return ident
 
 
+def nested_n2(rng):
+    """directed family: a branch multiplied by 2 (anchor not the first node) that contains exactly one
+    nested, unmultiplied branch; node multipliers anywhere, also on the first node of the nested branch
+    (the one shape of nested multiplication the unchanged code expands correctly)"""
+    nm = lambda p=0.5: (G.rand_count(rng) if rng.random() < p else None)
+    name = lambda: G.rand_name(rng, rng.random() < 0.3)
+    sym = lambda: G.rand_sym(rng, 0.25)
+    inner = [G.item(name(), m=nm(0.7))] + [G.item(name(), m=nm(0.3)) for _ in range(rng.randint(0, 2))]
+    for k in range(len(inner) - 1):
+        if inner[k]['m'] is None:
+            inner[k]['b'] = sym()
+    before = [G.item(name(), m=nm(0.2)) for _ in range(rng.randint(0, 2))]
+    host = G.item(name(), br=[G.branch(inner, a=rng.choice([None, None, '-']))])
+    after = [G.item(name(), m=nm(0.2)) for _ in range(rng.randint(1, 2))]
+    body = before + [host] + after
+    for k in range(len(body) - 1):
+        if body[k]['m'] is None and not body[k]['br']:
+            body[k]['b'] = rng.choice([None, None, '-'])
+    anchor = G.item(name(), m=nm(0.3), br=[G.branch(body, ms=sym(), m='2')])
+    pre = [G.item(name(), m=nm(0.2)) for _ in range(rng.randint(1, 2))]
+    post = [G.item(name()) for _ in range(rng.randint(0, 2))]
+    if post:
+        anchor['br'][0]['a'] = sym()
+    a = pre + [anchor] + post
+    for k in range(len(pre)):
+        if a[k]['m'] is None:
+            a[k]['b'] = sym()
+    assert G.wf(a) is None, G.print_ast(a)
+    return a
+
+
 def case_of(a, braces=True, mode='random'):
     return {'mode': mode, 'braces': braces, 'ast': a, 'short': G.print_ast(a, braces),
             'long': G.print_ast(G.expand(a), braces), 'judge': True}
@@ -99,7 +133,7 @@ def case_of(a, braces=True, mode='random'):
 
 def small_asts(thorough):
     out = list(G.enum_asts(max_nodes=3, syms=(None, '#'), max_rings=0, node_mults=('2', '3'), branch_mults=('1', '2', '3'),
-                           max_mults=2))
+                           max_mults=2 if thorough else 1))
     if thorough:
         out += list(G.enum_asts(max_nodes=4, syms=(None, '='), max_sym_slots=1, max_rings=0, node_mults=('2',),
                                 branch_mults=('2', '3'), max_mults=2))
@@ -120,7 +154,7 @@ class C05(common.Prop):
     corr_fn = 'corr_ok5'
     fail_fn = 'prop_fail5'
     shard = 100
-    quick_cases = 1000
+    quick_cases = 600
     thorough_cases = 8000
     extended_cases = 3000
     fail_text = {1: 'shorthand and longhand are read as different graphs (no renumbering / not the identity numbering)',
@@ -142,7 +176,10 @@ class C05(common.Prop):
             r = rng.random()
             size = rng.choice([2, 3, 4, 6, 8])
             braces = rng.random() < 0.85
-            if r < 0.25:
+            if r < 0.12:
+                a = nested_n2(rng)
+                mode = 'nested-in-doubled-branch'
+            elif r < 0.30:
                 a = G.rand_ast(rng, size=size + 2, p_nmult=0.4)
                 mode = 'node-mult'
             elif r < 0.65:
